@@ -307,6 +307,21 @@ def rule_pair_readop_once(ctx):
             if n != 1:
                 r.violate(nid, 'record-count', str(n), 'a path through %s records the lookup %d times (expected exactly once)' % (nid, n),
                           where=ctx.where(nid), path=[fmt(c) + ' == ' + str(v) for c, v in p.conds][:12])
+            elif what == 'send':
+                # ... and as what it was: a hit (Some returned) as ReadOp::Hit carrying the entry that was found -- the maintenance refreshes recency and the
+                # idle deadline from it -- a miss as ReadOp::Miss
+                sent = [e for e in p.events if e[0] == 'call' and e[1] in CHAN_SEND][0]
+                ops = [x for a in sent[2] for x in subterms(a) if isinstance(x, tuple) and x and x[0] == 'aggr' and str(x[1]).endswith('::ReadOp')]
+                kind_ = ops[0][2] if ops else None
+                is_hit = isinstance(p.ret, tuple) and p.ret and p.ret[0] == 'aggr' and p.ret[2] == 'Some'
+                is_miss = p.ret == ('aggr', 'std::option::Option', 'None', ())
+                carries = bool(ops) and kind_ == 'Hit' and any(isinstance(y, tuple) and y and y[0] == 'call' and str(y[1]).endswith(('DashMap::get', 'DashMap::get_mut')) for y in subterms(ops[0]))
+                ok = (is_hit and carries) or (is_miss and kind_ == 'Miss') or not (is_hit or is_miss)
+                r.instance(function=nid, outcome='hit' if is_hit else ('miss' if is_miss else '?'), recorded_as=kind_, carries_found_entry=carries if is_hit else None, ok=ok)
+                if not ok:
+                    r.violate(nid, 'record-kind', '%s-as-%s' % ('hit' if is_hit else 'miss', kind_), 'a %s path of %s records the lookup as ReadOp::%s%s: the maintenance step does not refresh the '
+                              'recency / idle time of the entry that was read' % ('hit' if is_hit else 'miss', nid, kind_, '' if (not is_hit or carries) else ' without the entry that was found'),
+                              where=ctx.where(nid, sent[3]), path=[fmt(c)[:60] + ' == ' + str(v) for c, v in p.conds][:8], expected='hit => ReadOp::Hit(hash, entry, now); miss => ReadOp::Miss(hash)')
     r.require_floor(4, 'paths through get')
     return r
 
@@ -332,6 +347,8 @@ def rule_const_masks(ctx):
     bodies = [b] + [ctx.prog.bodies[c] for c in ctx.prog.closures_of.get(b.nid, [])]
     consts = [s['rv'] for bb in bodies for _, _, s in bb.stmts() if s['st'] == 'assign' and s['rv']['rv'] == 'binop' and s['rv']['op'] == 'BitAnd']
     nib = [c for c in consts if c['b'].get('val') == 15 or c['a'].get('val') == 15]
+    # (`x % 16` on an unsigned value is the same mask)
+    nib += [s['rv'] for bb in bodies for _, _, s in bb.stmts() if s['st'] == 'assign' and s['rv']['rv'] == 'binop' and s['rv']['op'] == 'Rem' and s['rv']['b'].get('val') == 16]
     r.instance(function=b.nid, nibble_mask_sites=len(nib))
     if not nib:
         r.violate(b.nid, 'nibble-mask', '0xF', 'frequency() does not mask the counter with 0xF', where=ctx.where(b.nid))
@@ -492,7 +509,19 @@ def rule_sketch_structure(ctx):
         b = ctx.body(SK + '::' + fn)
         ranges = [s['rv'] for bb in [b] + [prog.bodies[c] for c in prog.closures_of.get(b.nid, [])] for _, _, s in bb.stmts() if s['st'] == 'assign' and s['rv']['rv'] == 'aggr' and s['rv'].get('kind') == 'adt' and norm(s['rv']['adt']) == 'std::ops::Range']
         ok = any(rg['ops'][0].get('val') == 0 and rg['ops'][1].get('val') == 4 for rg in ranges)
-        r.instance(function=b.nid, depth_range_0_4=ok)
+        how = 'literal range 0..4' if ok else None
+        if not ok:
+            # the depth loop may be driven by an iterator of this module instead of a literal range: decide by unrolling it -- every explored
+            # execution of the function goes round its loop exactly 4 times (5 visits of the header), none is abandoned at the unrolling bound
+            try:
+                seqs = ctx.symex(inline_depth=3, loop_visits=8, trip_events=True, emit_cut=True, inline_pred=_mod).run(b.nid)
+            except PathLimit:
+                seqs = []
+            trips = [sum(1 for e in p.events if e[0] == 'trip') for p in seqs if not p.diverged]
+            # (a path that returns before the loop -- the sketch is not allocated yet -- has no trip at all)
+            if seqs and trips and not any(p.diverged == 'cut' for p in seqs) and all(t_ in (0, 5) for t_ in trips) and 5 in trips:
+                ok, how = True, 'unrolled: exactly 4 iterations on each of %d path(s)' % len(trips)
+        r.instance(function=b.nid, depth_range_0_4=ok, decided_by=how)
         if not ok:
             r.violate(b.nid, 'sketch-depth', '0..4', '%s does not loop over the 4 counters of a key' % b.nid, where=ctx.where(b.nid))
         # all four counters are visited on every call: the depth loop is left only when its range is exhausted (no break / early return)
